@@ -16,7 +16,7 @@ import Mathlib.Data.List.Flatten
 import Mathlib.Data.List.Perm.Basic
 import Mathlib.Tactic.Linarith
 
-namespace Fc
+namespace Fc.C02
 variable {α : Type}
 
 /-- split a list after every adjacent pair that fails the test `e` -/
@@ -227,4 +227,4 @@ theorem segSort_sorted {P : α → Prop} {srt K n} (h : IsSortOn P srt K n) :
       exact h12 a ((segSort_perm h.perm K fuel (j + 1) g1).mem_iff.mp ha) b
         ((segSort_perm h.perm K fuel (j + 1) g2).mem_iff.mp hb)
 
-end Fc
+end Fc.C02
